@@ -126,6 +126,12 @@ func checkPair(c *Ctx, p *Prog, spec pairSpec) int {
 			c.OkTrivial(spec.Rule, name+"#exempt", fn.Pos(), "exempt: %s", why)
 			continue
 		}
+		// the UCI driver sets positions up: it plays the moves of a `position` command for good. Those makes are
+		// never undone by design, under whatever name the helper goes (C02.R5/R8 and C05.R6 own them).
+		if _, listed := spec.Exempt["uci.(*Driver).applyMoves"]; listed && relPkg(fnPkgPath(fn)) == "uci" && len(closes) == 0 {
+			c.OkTrivial(spec.Rule, name+"#exempt", fn.Pos(), "exempt: the UCI driver applies the moves of a position command permanently")
+			continue
+		}
 		sites += len(opens)
 		pairFunc(c, spec, fn, name)
 	}
